@@ -342,6 +342,13 @@ func (b *bmcSys) check() {
 		b.logf("shared cells accessed by several library goroutines: %v; extracting again with their loads/stores as separate steps", b.racyList())
 	}
 	b.logf("extraction: %d locations, solver %.1fs (%d queries)", len(b.locs), b.s.Stats.Seconds, b.s.Stats.Queries)
+	if b.nowUsed && b.clock == 0 {
+		// the code under test sleeps or arms timers in a configuration that was not
+		// given a clock: without one the timers could never fire and behaviours would
+		// be silently missing - use the lax clock
+		b.clock = 1
+		b.logf("timers/sleeps in use without a clock parameter: running under the lax virtual clock")
+	}
 	b.buildTransitions()
 	b.res.States += len(b.locs)
 	b.res.Transitions += len(b.trans)
@@ -468,7 +475,7 @@ func (b *bmcSys) unrollAndSolve() {
 	f := b.f
 	s := b.s
 	u := &unroller{b: b, cur: map[*term.T]*term.T{}, consts: map[*term.T]*term.T{}, finBad: map[string][]*term.T{}, invBad: map[string][]*term.T{}}
-	u.porOn = f.Var("por.on", term.Bool)
+	u.porOn = f.True() // (the partial-order constraints are hard assertions; see the no-POR retry in cmd/vcheck)
 	// fail / cover flags
 	labels := map[string]bool{}
 	covers := map[string]bool{}
@@ -692,7 +699,7 @@ func (b *bmcSys) unrollAndSolve() {
 			u.pendingPOR = false
 			for _, pr := range u.indep {
 				if u.prevLive[pr[0]] && liveNow[pr[1]] {
-					assert(f.Implies(u.porOn, f.Not(f.And(f.Eq(u.sch[k-1], f.IntC(int64(pr[0]))), f.Eq(sch, f.IntC(int64(pr[1])))))))
+					assert(f.Not(f.And(f.Eq(u.sch[k-1], f.IntC(int64(pr[0]))), f.Eq(sch, f.IntC(int64(pr[1]))))))
 				}
 			}
 		}
